@@ -251,10 +251,12 @@ class Gen:
         return self.value(t, depth)
 
     def share(self, term):
-        """Give the top-level pointer/slice/map of `term` an identity label so that both sides are the very same object."""
-        if term[0] in ('p', 'sl', 'mp') and term[2] != 'nil':
-            return term[:2] + [str(self.fresh_label())] + term[3:]
-        return term
+        """Give every pointer/slice/map inside `term` an identity label, so that a copy of the term denotes the very same objects."""
+        out = list(term)
+        for i in range(len(out) - 2):
+            if out[i] in ('p', 'sl', 'mp') and out[i + 2] == '0':
+                out[i + 2] = str(self.fresh_label())
+        return out
 
 
 def arg_tokens(term):
